@@ -1033,14 +1033,37 @@ def r5_batching(L, repo, spec, W, pdus, tab):
     L.floor(R, "burst fields with a modulation-driven length", nb, 5)
 
 
+def r5_sub_pdu_lists(L, repo):
+    """R5 (batching, per decode).  Clause decided: "a version-2 PDU with any number of batched sub-PDUs round-trips
+    with every sub-PDU intact" - for every PDU decoded by a process, not only the first.  PDUv2Rx/Tx hand their
+    `bpdu` octets to codec.Sequence.from_bytes; the list of sub-PDUs it yields must be created by that decode.
+    One list object outliving the call (default-argument / class-level / module-level object that is only ever
+    appended to) makes every later PDU also carry the sub-PDUs of the earlier ones.  Decided by C16's
+    result-ownership analysis (rules.c16.r6_ownership) on the resolved origin of the returned object."""
+    from rules import c16
+    c16.r6_ownership(L, repo, R="C17.R5",
+                     key="batched sub-PDUs: the `bpdu` list a decode yields (codec.Sequence.from_bytes) is created by that "
+                         "decode - not one default-argument, class-level or module-level object that still holds the "
+                         "sub-PDUs of PDUs decoded earlier")
+
+
+def build_all(L, repo):
+    spec = load_spec()
+    W, pdus = build(L, repo)
+    return spec, W, pdus
+
+
 def run(L, tier):
     repo = Repo(L.repo)
     L.unit(FP)
     L.unit(rel("codec"))
-    spec = load_spec()
-    W, pdus = build(L, repo)
-    r1_structure(L, spec, W, pdus)
-    tab = r2_burst_len(L, repo, spec, W, pdus)
-    r3_v0rx(L, repo, spec, W, pdus)
-    r4_msg_codec(L, repo, spec, W, pdus)
-    r5_batching(L, repo, spec, W, pdus, tab)
+    from report import STAGE_FAILED
+    b = L.stage(build_all, L, repo)
+    if b is not STAGE_FAILED:
+        spec, W, pdus = b
+        L.stage(r1_structure, L, spec, W, pdus)
+        tab = L.stage(r2_burst_len, L, repo, spec, W, pdus)
+        L.stage(r3_v0rx, L, repo, spec, W, pdus)
+        L.stage(r4_msg_codec, L, repo, spec, W, pdus)
+        L.stage(r5_batching, L, repo, spec, W, pdus, tab)
+    L.stage(r5_sub_pdu_lists, L, repo)
